@@ -14,8 +14,8 @@ RULE = ("seeded histories: a pool of 2-4 factor objects and 1-3 constraint objec
         "sequences and on perturbed ones); non-trivial = >=2 blocks share >=1 constraint object and >=1 query compared >=2 "
         "sequences; distinct = (block kinds, shared constraint kinds, order)")
 ASSUMPTIONS = ["fake peers return only genuine models of the clauses they receive"]
-BUDGET = {"quick": 45, "thorough": 900}
-RUNS = {"quick": 2500, "thorough": 60000}
+BUDGET = {"quick": 300, "thorough": 900}
+RUNS = {"quick": 500, "thorough": 60000}
 CKINDS = ["atmost", "atleast", "exactlyrow", "exactlyk", "pin", "exclude"]
 
 
